@@ -5,7 +5,7 @@
 //   drv_rt small  <maxfaces> <seed> <stride>   every canonical triangle list of <= maxfaces faces over 5 position ids, without and with a
 //                                          per-corner attribute over 2 values (seam masks), x a covering set of option rows;
 //                                          every stride-th case (seeded) is emitted, all are run
-//   flags: nodedup (keep duplicate points: finding F10), intnormals (integer NORMAL attributes: finding F9), big
+//   flags: handles (wrapped grids with holes: handles + boundary loops, see GenParams), nodedup (keep duplicate points: finding F10), intnormals (integer NORMAL attributes: finding F9), big
 #include "geom.h"
 using namespace draco;
 using namespace vg;
@@ -245,18 +245,21 @@ static void run_case(const Geom &g, const Opt &o, bool emit, int big_threshold) 
 
 // ---------------------------------------------------------------------------------------------- modes
 static bool g_expdims = false;
+static bool g_handles = false;
 static int run_random(uint64_t seed, long n, bool nodedup, bool intnormals, bool bigmode) {
   vrt::Rng r(seed);
   GenParams gp;
+  gp.handles = g_handles;
   gp.dedup = !nodedup;
   gp.normals_float_only = !intnormals;
   for (long i = 0; i < n; ++i) {
     GenParams p = gp;
     if (bigmode) { p.max_points = 3000; p.max_faces = 6000; }
     else if (r.coin(1, 10)) { p.max_points = 400; p.max_faces = 800; }
-    const bool mesh = r.coin(2, 3);
+    const bool mesh = g_handles || r.coin(2, 3);
     Geom g = gen_geometry(r, mesh, p);
     Opt o = gen_options(r, g);
+    if (g_handles && o.method == 0 && r.coin(3, 4)) o.method = 1;     // the family is about Edgebreaker traversals
     // Quantising an attribute of an EMPTY geometry crashes the encoder (AttributeQuantizationTransform::ComputeParameters reads
     // value 0 of an attribute with a null buffer): an encoder robustness issue outside the listed properties (C01 starts from
     // "encoding reports success"); recorded in DESIGN.md §7 as an observation, avoided here.
@@ -319,21 +322,42 @@ static int run_small(int maxfaces, uint64_t seed, uint64_t stride) {
 static int run_fans(uint64_t seed, long n) {
   vrt::Rng r(seed);
   for (long i = 0; i < n; ++i) {
-    const int k = r.range(3, 7);
-    const bool closed = r.coin(2, 3);
+    int k = r.range(3, 7);
+    bool closed = r.coin(2, 3);
     std::vector<int> pos;
-    for (int t = 0; t < (closed ? k : k - 1); ++t) { pos.push_back(0); pos.push_back(1 + t); pos.push_back(1 + (t + 1) % k); }
-    const int extra_tris = r.range(0, 2);
-    for (int t = 0; t < extra_tris; ++t) { const int a = r.range(1, k), b = r.range(1, k + 2), c = r.range(0, k + 2); pos.push_back(a); pos.push_back(b); pos.push_back(c); }
+    // a third of the cases: closed surfaces (tetrahedron, octahedron, cube, 3x3 torus) cut into attribute charts -- every vertex is interior,
+    // the traversal starts from an interior face, seams run through start-face vertices
+    const int solid = r.coin(1, 3) ? r.range(0, 3) : -1;
+    const char *sname = "fan";
+    if (solid == 0) { pos = {0, 1, 2, 0, 3, 1, 0, 2, 3, 1, 3, 2}; k = 1; sname = "tetrahedron"; }
+    else if (solid == 1) { pos = {0, 1, 2, 0, 2, 3, 0, 3, 4, 0, 4, 1, 5, 2, 1, 5, 3, 2, 5, 4, 3, 5, 1, 4}; k = 3; sname = "octahedron"; }
+    else if (solid == 2) { pos = {0, 1, 2, 0, 2, 3, 4, 6, 5, 4, 7, 6, 0, 4, 5, 0, 5, 1, 1, 5, 6, 1, 6, 2, 2, 6, 7, 2, 7, 3, 3, 7, 4, 3, 4, 0}; k = 5; sname = "cube"; }
+    else if (solid == 3) {
+      for (int y = 0; y < 3; ++y) for (int x = 0; x < 3; ++x) {
+        const int a = y * 3 + x, b = y * 3 + (x + 1) % 3, c = ((y + 1) % 3) * 3 + x, d = ((y + 1) % 3) * 3 + (x + 1) % 3;
+        pos.insert(pos.end(), {a, b, c, b, d, c});
+      }
+      k = 6; sname = "torus3x3";
+    } else {
+      for (int t = 0; t < (closed ? k : k - 1); ++t) { pos.push_back(0); pos.push_back(1 + t); pos.push_back(1 + (t + 1) % k); }
+      const int extra_tris = r.range(0, 2);
+      for (int t = 0; t < extra_tris; ++t) { const int a = r.range(1, k), b = r.range(1, k + 2), c = r.range(0, k + 2); pos.push_back(a); pos.push_back(b); pos.push_back(c); }
+    }
+    if (solid >= 0 && r.coin()) {     // shuffled face order: the start face differs from case to case
+      const size_t nfc = pos.size() / 3;
+      for (size_t f = nfc; f > 1; --f) { const size_t j = (size_t)r.range(0, (int)f - 1); for (int c = 0; c < 3; ++c) std::swap(pos[3 * (f - 1) + c], pos[3 * j + c]); }
+    }
     if (r.coin(1, 4)) { const int rot = r.range(1, 2); for (size_t f = 0; f + 2 < pos.size(); f += 3) std::rotate(pos.begin() + f, pos.begin() + f + rot, pos.begin() + f + 3); }
     const int nextra = r.range(1, 3);
     std::vector<std::vector<int>> extra(nextra, std::vector<int>(pos.size()));
     for (auto &e : extra) {
-      const int style = r.range(0, 2);
-      for (size_t c = 0; c < pos.size(); ++c) e[c] = style == 0 ? r.range(0, 1) : style == 1 ? (int)((c / 3) % 2) : (r.coin(1, 5) ? 1 : 0);
+      const int style = r.range(0, 3);
+      std::vector<int> chart(pos.size() / 3);
+      for (auto &ch : chart) ch = r.range(0, 1);
+      for (size_t c = 0; c < pos.size(); ++c) e[c] = style == 0 ? r.range(0, 1) : style == 1 ? (int)((c / 3) % 2) : style == 2 ? (r.coin(1, 5) ? 1 : 0) : chart[c / 3];
     }
     Geom g = corner_mesh(pos, extra, k + 3, 2, r.range(0, nextra));
-    g.shape = closed ? "fan-closed" : "fan-open";
+    g.shape = solid >= 0 ? sname : (closed ? "fan-closed" : "fan-open");
     Opt o;
     o.method = r.coin(1, 6) ? 0 : 1;
     o.es = o.ds = r.range(0, 10);
@@ -396,7 +420,7 @@ static int run_sizes(uint64_t seed) {
 
 int main(int argc, char **argv) {
   bool nodedup = false, intnormals = false, big = false;
-  for (int i = 1; i < argc; ++i) { if (!strcmp(argv[i], "nodedup")) nodedup = true; if (!strcmp(argv[i], "intnormals")) intnormals = true; if (!strcmp(argv[i], "big")) big = true; if (!strcmp(argv[i], "expdims")) g_expdims = true; }
+  for (int i = 1; i < argc; ++i) { if (!strcmp(argv[i], "nodedup")) nodedup = true; if (!strcmp(argv[i], "intnormals")) intnormals = true; if (!strcmp(argv[i], "big")) big = true; if (!strcmp(argv[i], "expdims")) g_expdims = true; if (!strcmp(argv[i], "handles")) g_handles = true; }
   if (argc >= 4 && !strcmp(argv[1], "random")) return run_random(strtoull(argv[2], 0, 10), atol(argv[3]), nodedup, intnormals, big);
   if (argc >= 4 && !strcmp(argv[1], "fans")) return run_fans(strtoull(argv[2], 0, 10), atol(argv[3]));
   if (argc >= 3 && !strcmp(argv[1], "sizes")) return run_sizes(strtoull(argv[2], 0, 10));
